@@ -1,178 +1,13 @@
 package eng
 
-// E7: relations read from the code (not executed): switch statements over named
-// constants with constant results.
+// E7: relations read from the code (not executed): the declared constants of an enumeration. The relation a table
+// function defines over them is read by consteval.go (E7b).
 
 import (
-	"fmt"
-	"go/ast"
-	"go/constant"
-	"go/token"
 	"go/types"
 
 	"golang.org/x/tools/go/packages"
 )
-
-// SwitchRow is one case clause of a table function.
-type SwitchRow struct {
-	Keys    []string // names of the constants in the case list
-	KeyVals []constant.Value
-	// Result: the constant returned by the clause (string literal or named constant)
-	Result    string
-	ResultObj types.Object // when the result is a named constant
-	// Except: the clause returns Result unless the second switch variable equals one of these
-	// named constants (`if lang != X { return ... }`), in which case control falls out of the switch.
-	Except []string
-	Pos    token.Pos
-}
-
-// SwitchTable is a function of the form
-//
-//	switch <expr> { case A, B: return X ... } return D
-type SwitchTable struct {
-	Func    *ast.FuncDecl
-	Tag     ast.Expr
-	Rows    []SwitchRow
-	Default string // value returned after the switch ("" literal or named constant)
-	DefObj  types.Object
-}
-
-// ReadSwitchTable reads the table function `name` (method or function) of the package.
-func ReadSwitchTable(pkg *packages.Package, name string, fd *ast.FuncDecl) (*SwitchTable, error) {
-	if fd == nil {
-		for _, f := range pkg.Syntax {
-			for _, d := range f.Decls {
-				if x, ok := d.(*ast.FuncDecl); ok && x.Name.Name == name {
-					fd = x
-				}
-			}
-		}
-	}
-	if fd == nil || fd.Body == nil {
-		return nil, fmt.Errorf("function %s not found", name)
-	}
-	t := &SwitchTable{Func: fd}
-	var sw *ast.SwitchStmt
-	for _, st := range fd.Body.List {
-		switch x := st.(type) {
-		case *ast.SwitchStmt:
-			if sw != nil {
-				return nil, fmt.Errorf("%s: more than one switch", name)
-			}
-			sw = x
-		case *ast.ReturnStmt:
-			if sw == nil {
-				return nil, fmt.Errorf("%s: return before the switch", name)
-			}
-			if len(x.Results) < 1 {
-				return nil, fmt.Errorf("%s: bare return", name)
-			}
-			v, obj, err := constExpr(pkg, x.Results[0])
-			if err != nil {
-				return nil, fmt.Errorf("%s: default result: %v", name, err)
-			}
-			t.Default, t.DefObj = v, obj
-		default:
-			return nil, fmt.Errorf("%s: unsupported statement %T", name, st)
-		}
-	}
-	if sw == nil || sw.Init != nil || sw.Tag == nil {
-		return nil, fmt.Errorf("%s: not a plain switch on an expression", name)
-	}
-	t.Tag = sw.Tag
-	for _, cl := range sw.Body.List {
-		cc := cl.(*ast.CaseClause)
-		if cc.List == nil {
-			return nil, fmt.Errorf("%s: default clause inside the switch is not supported", name)
-		}
-		row := SwitchRow{Pos: cc.Pos()}
-		for _, e := range cc.List {
-			tv, ok := pkg.TypesInfo.Types[e]
-			if !ok || tv.Value == nil {
-				return nil, fmt.Errorf("%s: non-constant case expression", name)
-			}
-			row.KeyVals = append(row.KeyVals, tv.Value)
-			if id, ok := e.(*ast.Ident); ok {
-				row.Keys = append(row.Keys, id.Name)
-			} else if se, ok := e.(*ast.SelectorExpr); ok {
-				row.Keys = append(row.Keys, se.Sel.Name)
-			} else {
-				row.Keys = append(row.Keys, tv.Value.ExactString())
-			}
-		}
-		if len(cc.Body) != 1 {
-			return nil, fmt.Errorf("%s: case body with %d statements", name, len(cc.Body))
-		}
-		switch b := cc.Body[0].(type) {
-		case *ast.ReturnStmt:
-			v, obj, err := constExpr(pkg, b.Results[0])
-			if err != nil {
-				return nil, fmt.Errorf("%s: %v", name, err)
-			}
-			row.Result, row.ResultObj = v, obj
-		case *ast.IfStmt:
-			// if <var> != CONST { return lit }
-			be, ok := b.Cond.(*ast.BinaryExpr)
-			if !ok || be.Op != token.NEQ || b.Else != nil || b.Init != nil || len(b.Body.List) != 1 {
-				return nil, fmt.Errorf("%s: unsupported conditional case body", name)
-			}
-			rs, ok := b.Body.List[0].(*ast.ReturnStmt)
-			if !ok {
-				return nil, fmt.Errorf("%s: unsupported conditional case body", name)
-			}
-			v, obj, err := constExpr(pkg, rs.Results[0])
-			if err != nil {
-				return nil, fmt.Errorf("%s: %v", name, err)
-			}
-			row.Result, row.ResultObj = v, obj
-			if id, ok := be.Y.(*ast.Ident); ok {
-				row.Except = append(row.Except, id.Name)
-			} else {
-				return nil, fmt.Errorf("%s: unsupported exception operand", name)
-			}
-		default:
-			return nil, fmt.Errorf("%s: unsupported case body %T", name, b)
-		}
-		t.Rows = append(t.Rows, row)
-	}
-	return t, nil
-}
-
-// constExpr evaluates a constant result: string literal value, or the name of a named constant.
-func constExpr(pkg *packages.Package, e ast.Expr) (string, types.Object, error) {
-	tv, ok := pkg.TypesInfo.Types[e]
-	if !ok || tv.Value == nil {
-		return "", nil, fmt.Errorf("non-constant result")
-	}
-	if id, ok := e.(*ast.Ident); ok {
-		if obj := pkg.TypesInfo.Uses[id]; obj != nil {
-			if _, isConst := obj.(*types.Const); isConst {
-				return id.Name, obj, nil
-			}
-		}
-	}
-	if tv.Value.Kind() == constant.String {
-		return constant.StringVal(tv.Value), nil, nil
-	}
-	return tv.Value.ExactString(), nil, nil
-}
-
-// Lookup evaluates the table for a key constant name and an optional exception name.
-func (t *SwitchTable) Lookup(key string, second string) string {
-	for _, r := range t.Rows {
-		for _, k := range r.Keys {
-			if k == key {
-				for _, ex := range r.Except {
-					if ex == second {
-						return t.Default
-					}
-				}
-				return r.Result
-			}
-		}
-	}
-	return t.Default
-}
 
 // ConstsOfType lists the named constants of a package that have the given named type, in declaration order of value.
 func ConstsOfType(pkg *packages.Package, typeName string) []*types.Const {
